@@ -1,3 +1,650 @@
-//! C10 — not yet built
-use crate::ctx::Ctx;
-pub fn run(c: &mut Ctx) { c.notes.push("C10: not implemented".into()); }
+//! C10 — renumbering objects preserves the document graph.
+//! Generator: random documents (page trees with page ids out of page order, sparse ids, non-zero
+//! generations, shared / cyclic / dangling references, references from the trailer, bookmarks),
+//! built directly and (for a share of the cases) saved and re-loaded; x start values.
+//! Real code: `Document::renumber_objects_with(start)`.  Correspondence: whole-document digest
+//! against the compiled Lean model.  Oracle (independent of both): the renaming rho is computed
+//! directly from page order + id order, applied once, and compared with the real result
+//! (objects, trailer, max_id, reference resolution incl. dangling ones, page order, bookmarks).
+use crate::codec::*;
+use crate::ctx::{guard, Ctx};
+use crate::rng::Rng;
+use lopdf::{Bookmark, Dictionary, Document, Object, ObjectId, Stream};
+use serde_json::json;
+use std::collections::{BTreeMap, BTreeSet};
+
+// ---------------------------------------------------------------- document digest (protocol)
+
+pub fn show_bm(doc: &Document) -> String {
+    let mut roots = format!("{}", doc.bookmarks.len());
+    for b in &doc.bookmarks { roots.push_str(&format!(" {}", b)); }
+    let t: BTreeMap<u32, &Bookmark> = doc.bookmark_table.iter().map(|(k, v)| (*k, v)).collect();
+    let mut s = format!("{} {}", roots, t.len());
+    for (id, b) in t {
+        s.push_str(&format!(" {} {} {} {}", id, b.page.0, b.page.1, b.children.len()));
+        for c in &b.children { s.push_str(&format!(" {}", c)); }
+    }
+    s
+}
+/// `<maxid> <trailer> <objects> <roots> <table>`
+pub fn show_doc(doc: &Document) -> String {
+    format!("{} {} {} {}", doc.max_id, show_obj(&Object::Dictionary(doc.trailer.clone())),
+            show_objects(doc.objects.iter()), show_bm(doc))
+}
+/// the model keeps the bookmark table in request order; canonical = sorted by id (as `show_bm` prints)
+pub fn panic_class(msg: &str) -> &'static str {
+    if msg.contains("attempt to add with overflow") { "add" }
+    else if msg.contains("attempt to subtract with overflow") { "sub" }
+    else { "other" }
+}
+
+// ---------------------------------------------------------------- generator
+
+#[derive(Clone, Copy, PartialEq, Debug)]
+pub enum Dangling { None, Safe, InRange }
+
+#[derive(Clone, Debug)]
+pub struct Opts {
+    pub pages_in_id_order: bool,
+    pub bookmarks: bool,
+    pub dangling: Dangling,
+    /// several objects with the same number (different generations), pages listed twice, bookmark ids missing
+    pub malformed: bool,
+    pub max_other: usize,
+}
+
+pub struct GenDoc { pub doc: Document, pub leaves: Vec<ObjectId>, pub others: Vec<ObjectId> }
+
+fn gen_leaf(r: &mut Rng) -> Object {
+    match r.below(8) {
+        0 => Object::Null,
+        1 => Object::Boolean(r.chance(1, 2)),
+        2 => Object::Integer(r.range(-1000, 1000)),
+        3 => Object::Real([0.5f32, -1.25, 3.0, 100.125][r.usize(4)]),
+        4 => Object::Name(r.pick(&[&b"Font"[..], b"X", b"Fit", b"A B", b""]).to_vec()),
+        5 => Object::String((0..r.usize(5)).map(|_| r.byte()).collect(), lopdf::StringFormat::Literal),
+        6 => Object::String((0..r.usize(4)).map(|_| r.byte()).collect(), lopdf::StringFormat::Hexadecimal),
+        _ => Object::Integer(r.range(0, 9)),
+    }
+}
+pub struct RefPool<'a> { pub ids: &'a [ObjectId], pub dangling: Dangling }
+fn gen_ref(r: &mut Rng, p: &RefPool) -> Object {
+    if p.dangling != Dangling::None && r.chance(1, 6) {
+        return Object::Reference(match p.dangling {
+            Dangling::Safe => (3_000_000_000 + r.below(100) as u32, if r.chance(1, 4) { r.below(3) as u16 } else { 0 }),
+            _ => { // a number near the existing ones (may or may not exist; if it exists with this generation it is not dangling)
+                let base = p.ids[r.usize(p.ids.len())].0;
+                ((base as i64 + r.range(-2, 6)).max(0) as u32, if r.chance(1, 6) { 1 } else { 0 })
+            }
+        });
+    }
+    Object::Reference(*r.pick(p.ids))
+}
+pub fn gen_obj(r: &mut Rng, depth: usize, p: &RefPool) -> Object {
+    // streams only as top-level objects (a stream cannot be a direct value inside another object)
+    let k = if depth >= 3 { r.below(5) } else if depth >= 1 { r.below(9) } else { r.below(10) };
+    match k {
+        0 | 1 => gen_leaf(r),
+        2 | 3 | 4 => gen_ref(r, p),
+        5 | 6 => {
+            let n = r.usize(5);
+            let mut v: Vec<Object> = (0..n).map(|_| gen_obj(r, depth + 1, p)).collect();
+            if n > 0 && r.chance(1, 4) { let d = v[r.usize(n)].clone(); v.push(d); } // duplicate entry
+            Object::Array(v)
+        }
+        7 | 8 => Object::Dictionary(gen_dict(r, depth + 1, p)),
+        _ => {
+            let d = gen_dict(r, depth + 1, p);
+            let content: Vec<u8> = (0..r.usize(6)).map(|_| r.byte()).collect();
+            Object::Stream(Stream::new(d, content))
+        }
+    }
+}
+fn gen_dict(r: &mut Rng, depth: usize, p: &RefPool) -> Dictionary {
+    let mut d = Dictionary::new();
+    let keys: [&[u8]; 8] = [b"A", b"B", b"Next", b"Prev", b"K", b"Dest", b"F", b"Kids2"];
+    for _ in 0..r.usize(5) { d.set(r.pick(&keys).to_vec(), gen_obj(r, depth, p)); }
+    d
+}
+
+pub fn gen_doc(r: &mut Rng, o: &Opts) -> GenDoc {
+    let n_pages = if r.chance(1, 12) { 0 } else { 1 + r.usize(6) };
+    let n_nodes = r.usize(3);
+    let n_other = r.usize(o.max_other + 1);
+    let total = 2 + n_nodes + n_pages + n_other;
+    // sparse numbers >= 1, distinct; a few non-zero generations
+    let mut cur = if r.chance(1, 3) { r.below(40) as u32 } else { 0 };
+    let mut nums: Vec<u32> = vec![];
+    for _ in 0..total { cur += 1 + if r.chance(1, 2) { 0 } else { r.below(4) as u32 }; nums.push(cur); }
+    let mut ids: Vec<ObjectId> = nums.iter().map(|n| (*n, if r.chance(1, 6) { 1 + r.below(3) as u16 } else { 0 })).collect();
+    if o.malformed && r.chance(1, 2) && total > 3 {
+        // same number, different generation
+        let i = r.usize(total); let j = r.usize(total);
+        if i != j { ids[j] = (ids[i].0, ids[i].1 + 1); }
+    }
+    let all_ids = ids.clone();
+    // roles
+    let mut pool = ids.clone();
+    r.shuffle(&mut pool);
+    let mut page_ids: Vec<ObjectId> = pool.drain(..n_pages).collect();
+    if o.pages_in_id_order { page_ids.sort(); }
+    let cat = pool.pop().unwrap();
+    let root = pool.pop().unwrap();
+    let node_ids: Vec<ObjectId> = pool.drain(..n_nodes).collect();
+    let others: Vec<ObjectId> = pool;
+    let rp = RefPool { ids: &all_ids, dangling: o.dangling };
+    let mut doc = Document::with_version("1.5");
+    // page tree: pages distributed in order over root and intermediate nodes (contiguous runs keep DFS = page_ids order)
+    // layout: a sequence of entries; each entry is a page or a node holding a run of pages
+    let mut root_kids: Vec<Object> = vec![];
+    let mut leaves: Vec<ObjectId> = vec![];
+    let mut pi = 0usize;
+    let mut ni = 0usize;
+    let mut parent_of: BTreeMap<ObjectId, ObjectId> = BTreeMap::new();
+    while pi < n_pages || ni < n_nodes {
+        if ni < n_nodes && (pi >= n_pages || r.chance(1, 3)) {
+            let nid = node_ids[ni]; ni += 1;
+            let run = if pi < n_pages { r.usize(n_pages - pi + 1).min(3) } else { 0 };
+            let mut kids = vec![];
+            for _ in 0..run { kids.push(Object::Reference(page_ids[pi])); parent_of.insert(page_ids[pi], nid); leaves.push(page_ids[pi]); pi += 1; }
+            let mut d = Dictionary::new();
+            d.set("Type", Object::Name(b"Pages".to_vec()));
+            d.set("Parent", Object::Reference(root));
+            d.set("Count", Object::Integer(run as i64));
+            d.set("Kids", Object::Array(kids));
+            doc.objects.insert(nid, Object::Dictionary(d));
+            root_kids.push(Object::Reference(nid));
+        } else {
+            root_kids.push(Object::Reference(page_ids[pi])); parent_of.insert(page_ids[pi], root); leaves.push(page_ids[pi]); pi += 1;
+        }
+    }
+    if o.malformed && n_pages > 0 && r.chance(1, 2) {
+        // a page listed twice
+        let p = *r.pick(&page_ids);
+        let pos = r.usize(root_kids.len() + 1);
+        root_kids.insert(pos, Object::Reference(p));
+    }
+    for p in &page_ids {
+        let mut d = Dictionary::new();
+        d.set("Type", Object::Name(b"Page".to_vec()));
+        d.set("Parent", Object::Reference(parent_of[p]));
+        if !others.is_empty() && r.chance(2, 3) { d.set("Contents", Object::Reference(*r.pick(&others))); }
+        if r.chance(1, 2) { d.set("Annots", Object::Array((0..r.usize(3)).map(|_| gen_ref(r, &rp)).collect())); }
+        if r.chance(1, 3) { d.set("Resources", Object::Dictionary(gen_dict(r, 2, &rp))); }
+        if r.chance(1, 4) { d.set("Next", gen_ref(r, &rp)); }
+        doc.objects.insert(*p, Object::Dictionary(d));
+    }
+    let mut rd = Dictionary::new();
+    rd.set("Type", Object::Name(b"Pages".to_vec()));
+    rd.set("Count", Object::Integer(n_pages as i64));
+    rd.set("Kids", Object::Array(root_kids));
+    doc.objects.insert(root, Object::Dictionary(rd));
+    let mut cd = Dictionary::new();
+    cd.set("Type", Object::Name(b"Catalog".to_vec()));
+    cd.set("Pages", Object::Reference(root));
+    if !others.is_empty() && r.chance(1, 2) { cd.set("Names", Object::Reference(*r.pick(&others))); }
+    if r.chance(1, 3) { cd.set("OpenAction", Object::Array(vec![gen_ref(r, &rp), Object::Name(b"Fit".to_vec())])); }
+    doc.objects.insert(cat, Object::Dictionary(cd));
+    for id in &others {
+        let ob = if r.chance(1, 10) { gen_ref(r, &rp) } else {
+            match gen_obj(r, 0, &rp) { Object::Reference(x) if r.chance(1, 2) => Object::Array(vec![Object::Reference(x)]), x => x } };
+        doc.objects.insert(*id, ob);
+    }
+    doc.trailer.set("Root", Object::Reference(cat));
+    if !others.is_empty() && r.chance(1, 2) { doc.trailer.set("Info", Object::Reference(*r.pick(&others))); }
+    if r.chance(1, 3) { doc.trailer.set("ID", Object::Array(vec![Object::string_literal("ab"), Object::string_literal("cd")])); }
+    if r.chance(1, 4) { doc.trailer.set("X", gen_obj(r, 1, &rp)); }
+    doc.max_id = all_ids.iter().map(|i| i.0).max().unwrap_or(0) + r.below(3) as u32;
+    if o.bookmarks {
+        let n_b = 1 + r.usize(6);
+        let mut made: Vec<u32> = vec![];
+        for i in 0..n_b {
+            let page = if !leaves.is_empty() && r.chance(5, 6) { *r.pick(&leaves) }
+                       else if r.chance(1, 2) { (0, 0) } else { *r.pick(&all_ids) };
+            let parent = if !made.is_empty() && r.chance(1, 2) { Some(*r.pick(&made)) } else { None };
+            let id = doc.add_bookmark(Bookmark::new(format!("b{}", i), [0.0, 0.0, 0.0], 0, page), parent);
+            made.push(id);
+        }
+        if o.malformed && r.chance(1, 2) {
+            // a child id that is not in the table (update_bookmark_pages returns early)
+            let k = *r.pick(&made);
+            if let Some(b) = doc.bookmark_table.get_mut(&k) { let pos = r.usize(b.children.len() + 1); b.children.insert(pos, 9999); }
+        }
+    }
+    GenDoc { doc, leaves, others }
+}
+
+/// save and load again; bookmarks (in-memory only) are carried over
+pub fn through_file(doc: &Document) -> Option<Document> {
+    let mut d = doc.clone();
+    let mut buf = Vec::new();
+    d.save_to(&mut buf).ok()?;
+    let mut l = Document::load_mem(&buf).ok()?;
+    l.bookmarks = doc.bookmarks.clone();
+    l.bookmark_table = doc.bookmark_table.clone();
+    l.max_bookmark_id = doc.max_bookmark_id;
+    Some(l)
+}
+
+// ---------------------------------------------------------------- oracle (reference renaming)
+
+pub fn map_refs(o: &Object, f: &dyn Fn(ObjectId) -> ObjectId) -> Object {
+    match o {
+        Object::Reference(id) => Object::Reference(f(*id)),
+        Object::Array(a) => Object::Array(a.iter().map(|x| map_refs(x, f)).collect()),
+        Object::Dictionary(d) => Object::Dictionary(map_refs_dict(d, f)),
+        Object::Stream(s) => { let mut s2 = s.clone(); s2.dict = map_refs_dict(&s.dict, f); Object::Stream(s2) }
+        x => x.clone(),
+    }
+}
+pub fn map_refs_dict(d: &Dictionary, f: &dyn Fn(ObjectId) -> ObjectId) -> Dictionary {
+    let mut n = Dictionary::new();
+    for (k, v) in d.iter() { n.set(k.clone(), map_refs(v, f)); }
+    n
+}
+pub fn collect_refs(o: &Object, out: &mut Vec<ObjectId>) {
+    match o {
+        Object::Reference(id) => out.push(*id),
+        Object::Array(a) => for x in a { collect_refs(x, out) },
+        Object::Dictionary(d) => for (_, v) in d.iter() { collect_refs(v, out) },
+        Object::Stream(s) => for (_, v) in s.dict.iter() { collect_refs(v, out) },
+        _ => {}
+    }
+}
+/// ids reachable from the trailer through existing objects (includes dangling ids that are referenced)
+pub fn reachable(doc: &Document) -> BTreeSet<ObjectId> {
+    let mut seen = BTreeSet::new();
+    let mut todo = vec![];
+    for (_, v) in doc.trailer.iter() { collect_refs(v, &mut todo); }
+    while let Some(id) = todo.pop() {
+        if !seen.insert(id) { continue; }
+        if let Some(o) = doc.objects.get(&id) { collect_refs(o, &mut todo); }
+    }
+    seen
+}
+/// ordered-equality of objects is too strict for dictionaries? No: renaming keeps entry order; compare protocol text.
+fn same(a: &Object, b: &Object) -> bool { canon_line(&show_obj(a)) == canon_line(&show_obj(b)) }
+
+/// the renaming a correct renumbering realises: k-th page in page order gets the number of the k-th
+/// smallest page id (own generation) when pages are out of id order; then all ids, sorted, get
+/// consecutive numbers from `start` (own generation).
+pub fn reference_rho(doc: &Document, leaves: &[ObjectId], start: u32) -> BTreeMap<ObjectId, ObjectId> {
+    let mut sorted = leaves.to_vec(); sorted.sort();
+    let mut rho1: BTreeMap<ObjectId, ObjectId> = doc.objects.keys().map(|k| (*k, *k)).collect();
+    if sorted != leaves {
+        for (k, p) in leaves.iter().enumerate() { rho1.insert(*p, (sorted[k].0, p.1)); }
+    }
+    let mut mid: Vec<ObjectId> = rho1.values().cloned().collect(); mid.sort();
+    let rho2: BTreeMap<ObjectId, ObjectId> = mid.iter().enumerate().map(|(k, id)| (*id, (start + k as u32, id.1))).collect();
+    rho1.into_iter().map(|(old, m)| (old, rho2[&m])).collect()
+}
+
+/// keys after a correct page-order pass (before the dense pass)
+fn intermediate_keys(doc: &Document, leaves: &[ObjectId]) -> BTreeSet<ObjectId> {
+    let mut sorted = leaves.to_vec(); sorted.sort();
+    let mut keys: BTreeSet<ObjectId> = doc.objects.keys().cloned().collect();
+    if sorted != leaves {
+        for p in leaves { keys.remove(p); }
+        for (k, p) in leaves.iter().enumerate() { keys.insert((sorted[k].0, p.1)); }
+    }
+    keys
+}
+
+fn check_dense(c: &mut Ctx, before: &Document, after: &Document, start: u32, strict_count: bool, case: &serde_json::Value) {
+    let n = after.objects.len() as u32;
+    let nums: Vec<u32> = after.objects.keys().map(|k| k.0).collect();
+    let want: Vec<u32> = (start..start + n).collect();
+    if nums != want { c.oracle_fail("dense:numbers", "object numbers are not start..start+n-1", case.clone()); }
+    if n > 0 && after.max_id != start + n - 1 { c.oracle_fail("dense:max_id", "max_id is not the last number", case.clone()); }
+    if strict_count && after.objects.len() != before.objects.len() {
+        c.oracle_fail("dense:count", "number of objects changed", case.clone());
+    }
+}
+
+#[derive(PartialEq, Clone, Copy)]
+enum Mode { Full, SanityOnly }
+
+/// run one case: real code, correspondence, oracle. Returns the real result.
+fn run_case(c: &mut Ctx, stream: &str, g: &GenDoc, start: u32, mode: Mode) {
+    let doc = &g.doc;
+    let req = format!("renumber {} {}", start, show_doc(doc));
+    c.count(&format!("{}.cases", stream));
+    let real = guard(|| { let mut d = doc.clone(); d.renumber_objects_with(start); d });
+    let short = if req.len() < 600 { req.clone() } else { format!("{}…", &req[..600]) };
+    let case = json!({"stream": stream, "start": start, "request": short});
+    let after = match real {
+        Ok(d) => { c.corr(req.clone(), format!("ok {}", show_doc(&d))); d }
+        Err((site, msg)) => {
+            let cls = panic_class(&msg);
+            c.corr(req.clone(), format!("panic {}", cls));
+            c.count(&format!("panic.{}", cls));
+            let sig = if site.starts_with("src/processor.rs") && cls == "sub" && doc.objects.is_empty() && start == 0 { "panic:sub:empty-start0".to_string() }
+                      else if site.starts_with("src/processor.rs") && cls == "add" && (start as u64 + doc.objects.len() as u64) > u32::MAX as u64 { "panic:add:u32-overflow".to_string() }
+                      else { format!("panic@{}", site) };
+            c.oracle_fail(&sig, &msg, case);
+            return;
+        }
+    };
+    c.nontrivial(&req);
+    if doc.objects.len() >= 4 { c.count("objects_ge_4"); }
+    check_dense(c, doc, &after, start, mode == Mode::Full, &case);
+    if mode == Mode::SanityOnly { return; }
+    // ---- reference renaming
+    let rho = reference_rho(doc, &g.leaves, start);
+    { let mut s = g.leaves.to_vec(); s.sort(); if s != g.leaves { c.count("pages_reordered"); } }
+    let new_keys: BTreeSet<ObjectId> = rho.values().cloned().collect();
+    let f = |id: ObjectId| -> ObjectId { *rho.get(&id).unwrap_or(&id) };
+    let reach = reachable(doc);
+    // trailer
+    if !same(&Object::Dictionary(map_refs_dict(&doc.trailer, &f)), &Object::Dictionary(after.trailer.clone())) {
+        c.oracle_fail("iso:trailer", "trailer is not the original with references renamed", case.clone());
+    }
+    // dangling references that a moved object now answers to (at the final ids, or already at the
+    // intermediate ids after the page-order pass — then the reference itself is renamed by the dense pass)
+    let mut all_refs = vec![];
+    for (_, v) in doc.trailer.iter() { collect_refs(v, &mut all_refs); }
+    for id in reach.iter() { if let Some(o) = doc.objects.get(id) { collect_refs(o, &mut all_refs); } }
+    let mid_keys = intermediate_keys(doc, &g.leaves);
+    let captured: Vec<ObjectId> = all_refs.iter().filter(|r| !doc.objects.contains_key(r) && (new_keys.contains(r) || mid_keys.contains(r))).cloned().collect();
+    if !captured.is_empty() {
+        c.count("dangling_captured");
+        // on the REAL result: walk old and new holders in parallel; a reference that was dangling and now resolves
+        let mut pairs: Vec<(ObjectId, ObjectId)> = vec![];
+        { let mut a = vec![]; let mut b = vec![];
+          for (_, v) in doc.trailer.iter() { collect_refs(v, &mut a); }
+          for (_, v) in after.trailer.iter() { collect_refs(v, &mut b); }
+          if a.len() == b.len() { pairs.extend(a.into_iter().zip(b)); } }
+        for id in reach.iter() {
+            if let (Some(o), Some(n)) = (doc.objects.get(id), after.objects.get(&f(*id))) {
+                let mut a = vec![]; let mut b = vec![];
+                collect_refs(o, &mut a); collect_refs(n, &mut b);
+                if a.len() == b.len() { pairs.extend(a.into_iter().zip(b)); }
+            }
+        }
+        if pairs.iter().any(|(o, n)| !doc.objects.contains_key(o) && after.objects.contains_key(n)) {
+            c.oracle_fail("dangling-captured", "a reference that resolved to nothing resolves to a renumbered object afterwards",
+                json!({"stream": stream, "start": start, "request": case["request"], "refs": format!("{:?}", captured)}));
+        }
+        // everything below (object equality, page order) is affected by the capture: reported once, under this signature
+        return;
+    } else if all_refs.iter().any(|r| !doc.objects.contains_key(r)) { c.count("dangling_still_dangling"); }
+    // objects: every old object sits at rho(id); reachable ones renamed, others untouched.
+    // (an unreachable object that became reachable through a captured dangling reference is renamed too: skip those cases)
+    {
+        for (old, o) in doc.objects.iter() {
+            let want = if reach.contains(old) { map_refs(o, &f) } else { o.clone() };
+            match after.objects.get(&f(*old)) {
+                Some(got) if same(got, &want) => {}
+                Some(_) => { c.oracle_fail(if reach.contains(old) { "iso:object" } else { "iso:unreachable-object-changed" },
+                    "object at rho(id) is not the original with references renamed", json!({"case": case, "old": format!("{:?}", old)})); break; }
+                None => { c.oracle_fail("iso:object-missing", "no object at rho(id)", json!({"case": case, "old": format!("{:?}", old)})); break; }
+            }
+        }
+        // resolution of every reference of the reachable part
+        for r in &all_refs {
+            let before = doc.objects.get(r);
+            let after_o = after.objects.get(&f(*r));
+            let ok = match (before, after_o) {
+                (None, None) => true,
+                (Some(b), Some(a)) => same(&if reach.contains(r) { map_refs(b, &f) } else { b.clone() }, a),
+                _ => false };
+            if !ok { c.oracle_fail("iso:resolve", "a reference does not resolve to the renamed original", json!({"case": case, "ref": format!("{:?}", r)})); break; }
+        }
+        c.count_n("references_checked", all_refs.len() as u64);
+    }
+    // page order
+    let pages_after: Vec<ObjectId> = after.page_iter().collect();
+    let want_pages: Vec<ObjectId> = g.leaves.iter().map(|p| f(*p)).collect();
+    if pages_after != want_pages {
+        c.oracle_fail("iso:page-order", "page order changed", json!({"case": case, "want": format!("{:?}", want_pages), "got": format!("{:?}", pages_after)}));
+    }
+    // bookmarks
+    if !doc.bookmark_table.is_empty() {
+        let seq = sequential_pairs(doc, &g.leaves, start);
+        let mut chain = 0; let mut other = 0;
+        for (id, b) in doc.bookmark_table.iter() {
+            let got = after.bookmark_table[id].page;
+            let want = f(b.page);
+            if got != want {
+                let mut p = b.page;
+                for (o, n) in &seq { if p == *o { p = *n; } }
+                if got == p { chain += 1 } else { other += 1 }
+            } else { c.count("bookmark_ok"); }
+        }
+        if other > 0 { c.oracle_fail("bookmark-target:other", "a bookmark does not point at the renamed page", case.clone()); }
+        else if chain > 0 {
+            c.count("bookmark_chained");
+            c.oracle_fail("bookmark-target:sequential-chain", "a bookmark target was renamed more than once (old and new numbers overlap)", case.clone());
+        }
+    }
+    c.sample(json!({"stream": stream, "start": start, "objects": doc.objects.len(), "pages": g.leaves.len(),
+                    "bookmarks": doc.bookmark_table.len(), "request": if req.len() < 300 { req } else { format!("{}…", &req[..300]) }}));
+}
+
+/// the (old, new) pairs in the order in which a sequential renamer would meet them — used ONLY to
+/// classify a wrong bookmark as "renamed more than once" (finding F-C10-a) versus anything else
+fn sequential_pairs(doc: &Document, leaves: &[ObjectId], start: u32) -> Vec<(ObjectId, ObjectId)> {
+    let mut seq = vec![];
+    let mut sorted = leaves.to_vec(); sorted.sort();
+    let mut keys: BTreeSet<ObjectId> = doc.objects.keys().cloned().collect();
+    if sorted != leaves {
+        for (k, p) in leaves.iter().enumerate() { let n = (sorted[k].0, p.1); if *p != n { seq.push((*p, n)); } }
+        for (k, p) in leaves.iter().enumerate() { let _ = k; keys.remove(p); }
+        for (k, p) in leaves.iter().enumerate() { keys.insert((sorted[k].0, p.1)); }
+    }
+    for (k, id) in keys.iter().enumerate() { let n = (start + k as u32, id.1); if id.0 != n.0 { seq.push((*id, n)); } }
+    seq
+}
+
+fn pick_start(r: &mut Rng, doc: &Document, kinds: &[u8]) -> u32 {
+    let lo = doc.objects.keys().map(|k| k.0).min().unwrap_or(1);
+    let hi = doc.objects.keys().map(|k| k.0).max().unwrap_or(1);
+    match *r.pick(kinds) {
+        0 => 1,
+        1 => lo + r.below((hi - lo + 1) as u64) as u32,                 // inside the range
+        2 => hi + 1 + r.below(20) as u32,                                 // above it
+        3 => 1_000_000 + r.below(2_000_000_000) as u32,                   // large
+        _ => 0,
+    }
+}
+
+/// independent page enumeration for the oracle: plain recursive DFS over direct `Kids` arrays of
+/// dictionaries typed Pages / Page (enough for the documents generated here)
+pub fn oracle_pages(doc: &Document) -> Vec<ObjectId> {
+    fn walk(doc: &Document, id: ObjectId, depth: usize, out: &mut Vec<ObjectId>) {
+        if depth > 50 { return; }
+        if let Some(Object::Dictionary(d)) = doc.objects.get(&id) {
+            match d.get(b"Type") {
+                Ok(Object::Name(n)) if n == b"Page" => out.push(id),
+                Ok(Object::Name(n)) if n == b"Pages" => {
+                    if let Ok(Object::Array(kids)) = d.get(b"Kids") {
+                        for k in kids { if let Object::Reference(kid) = k { walk(doc, *kid, depth + 1, out); } }
+                    }
+                }
+                _ => {}
+            }
+        }
+    }
+    let mut out = vec![];
+    if let Ok(Object::Reference(cat)) = doc.trailer.get(b"Root") {
+        if let Some(Object::Dictionary(c)) = doc.objects.get(cat) {
+            if let Ok(Object::Reference(root)) = c.get(b"Pages") {
+                if let Some(Object::Dictionary(rd)) = doc.objects.get(root) {
+                    if let Ok(Object::Array(kids)) = rd.get(b"Kids") {
+                        for k in kids { if let Object::Reference(kid) = k { walk(doc, *kid, 1, &mut out); } }
+                    }
+                }
+            }
+        }
+    }
+    out
+}
+
+fn maybe_loaded(c: &mut Ctx, r: &mut Rng, g: GenDoc) -> GenDoc {
+    if r.chance(1, 4) {
+        if let Some(l) = through_file(&g.doc) {
+            c.count("loaded_from_generated_file");
+            if l.objects.len() < g.doc.objects.len() {
+                c.count("loaded_with_fewer_objects");
+                if std::env::var("C10_DEBUG_LOAD").is_ok() {
+                    for (id, o) in g.doc.objects.iter() { if !l.objects.contains_key(id) { eprintln!("LOST {:?} {}", id, show_obj(o)); } }
+                }
+            }
+            let leaves = oracle_pages(&l);
+            return GenDoc { doc: l, leaves, others: g.others };
+        }
+        c.count("load_failed");
+    }
+    g
+}
+
+pub fn run(c: &mut Ctx) {
+    c.rule = "random documents: 0-6 pages over a root and 0-2 intermediate Pages nodes with page ids shuffled against page order, \
+sparse numbers, non-zero generations, up to 10 further objects (arrays/dicts/streams/top-level references) whose references are shared, cyclic, \
+from the trailer, dangling (out of range), unreachable holders; bookmarks via Document::add_bookmark; 1 in 4 saved and re-loaded; \
+start in {0, 1, inside the id range, above it, large}. Non-trivial = the call returned (no panic) on a document; distinct by request text.".into();
+    witnesses(c);
+    // ---- graphs without bookmarks, all start values: full isomorphism oracle
+    for i in 0..c.n(4000, 80000) {
+        let Some(mut r) = c.case("graph", i) else { continue };
+        let o = Opts { pages_in_id_order: r.chance(1, 5), bookmarks: false, dangling: if r.chance(1, 2) { Dangling::Safe } else { Dangling::None }, malformed: false, max_other: 10 };
+        let g = gen_doc(&mut r, &o);
+        let g = maybe_loaded(c, &mut r, g);
+        let start = pick_start(&mut r, &g.doc, &[0, 0, 1, 1, 2, 3, 4]);
+        run_case(c, "graph", &g, start, Mode::Full);
+    }
+    // ---- bookmarks where old and new numberings cannot chain (pages in id order; start 1 / above / large)
+    for i in 0..c.n(1500, 30000) {
+        let Some(mut r) = c.case("bookmarks", i) else { continue };
+        let o = Opts { pages_in_id_order: true, bookmarks: true, dangling: Dangling::Safe, malformed: false, max_other: 8 };
+        let g = gen_doc(&mut r, &o);
+        let g = maybe_loaded(c, &mut r, g);
+        let start = pick_start(&mut r, &g.doc, &[0, 2, 3]);
+        run_case(c, "bookmarks", &g, start, Mode::Full);
+    }
+    // ---- known-finding territory: bookmarks with overlapping numberings, dangling references in range
+    for i in 0..c.n(300, 5000) {
+        let Some(mut r) = c.case("bookmarks_overlap", i) else { continue }; // known territory
+        let o = Opts { pages_in_id_order: false, bookmarks: true, dangling: Dangling::None, malformed: false, max_other: 6 };
+        let g = gen_doc(&mut r, &o);
+        let start = pick_start(&mut r, &g.doc, &[0, 1, 1, 2]);
+        run_case(c, "bookmarks_overlap", &g, start, Mode::Full);
+    }
+    for i in 0..c.n(300, 5000) {
+        let Some(mut r) = c.case("dangling_in_range", i) else { continue };
+        let o = Opts { pages_in_id_order: r.chance(1, 2), bookmarks: false, dangling: Dangling::InRange, malformed: false, max_other: 8 };
+        let g = gen_doc(&mut r, &o);
+        let start = pick_start(&mut r, &g.doc, &[0, 1, 2]);
+        run_case(c, "dangling_in_range", &g, start, Mode::Full);
+    }
+    // ---- outside the guarded domain (same number twice, page listed twice, missing bookmark ids): model = code, dense numbering
+    for i in 0..c.n(1000, 20000) {
+        let Some(mut r) = c.case("malformed", i) else { continue };
+        let o = Opts { pages_in_id_order: false, bookmarks: r.chance(1, 2), dangling: Dangling::InRange, malformed: true, max_other: 6 };
+        let g = gen_doc(&mut r, &o);
+        let start = pick_start(&mut r, &g.doc, &[0, 1, 2, 3, 4]);
+        run_case(c, "malformed", &g, start, Mode::SanityOnly);
+    }
+    // ---- u32 boundary
+    for (i, (n_extra, start)) in [(0u32, u32::MAX), (1, u32::MAX - 1), (0, u32::MAX - 40), (3, u32::MAX - 2)].iter().enumerate() {
+        let Some(mut r) = c.case("u32_boundary", i as u64) else { continue };
+        let o = Opts { pages_in_id_order: false, bookmarks: false, dangling: Dangling::None, malformed: false, max_other: *n_extra as usize };
+        let g = gen_doc(&mut r, &o);
+        run_case(c, "u32_boundary", &g, *start, Mode::Full);
+    }
+}
+
+// ---------------------------------------------------------------- canonical witnesses of the known findings
+
+fn dict(kv: Vec<(&str, Object)>) -> Object { let mut d = Dictionary::new(); for (k, v) in kv { d.set(k, v); } Object::Dictionary(d) }
+fn rf(n: u32) -> Object { Object::Reference((n, 0)) }
+
+/// ids 1..5: 1 catalog, 2 pages root, 3 / 4 pages, 5 info
+pub fn witness_doc_1to5() -> Document {
+    let mut d = Document::with_version("1.5");
+    d.objects.insert((1, 0), dict(vec![("Type", Object::Name(b"Catalog".to_vec())), ("Pages", rf(3))]));
+    d.objects.insert((2, 0), dict(vec![("Type", Object::Name(b"Page".to_vec())), ("Parent", rf(3))]));
+    d.objects.insert((3, 0), dict(vec![("Type", Object::Name(b"Pages".to_vec())), ("Count", Object::Integer(2)), ("Kids", Object::Array(vec![rf(2), rf(4)]))]));
+    d.objects.insert((4, 0), dict(vec![("Type", Object::Name(b"Page".to_vec())), ("Parent", rf(3))]));
+    d.objects.insert((5, 0), dict(vec![("Title", Object::string_literal("t"))]));
+    d.trailer.set("Root", rf(1));
+    d.trailer.set("Info", rf(5));
+    d.max_id = 5;
+    d
+}
+
+fn witnesses(c: &mut Ctx) {
+    // F-C10-a: renumber_objects_with(2) on ids 1..5, bookmark on page (2,0)
+    if let Some(_r) = c.case("witness_bookmark_chain", 0) {
+        let mut d = witness_doc_1to5();
+        d.add_bookmark(Bookmark::new("b".into(), [0.0; 3], 0, (2, 0)), None);
+        let req = format!("renumber 2 {}", show_doc(&d));
+        match guard(|| { let mut x = d.clone(); x.renumber_objects_with(2); x }) {
+            Ok(x) => {
+                c.corr(req, format!("ok {}", show_doc(&x)));
+                let got = x.bookmark_table[&1].page;
+                // the page object (2,0) now lives at (3,0)
+                let page_moved_to_3 = matches!(x.objects.get(&(3, 0)), Some(Object::Dictionary(dd)) if dd.has_type(b"Page"));
+                c.witness("F-C10-a", page_moved_to_3 && got == (6, 0),
+                    &format!("renumber_objects_with(2) on ids 1..5: bookmark on page (2,0) ends at {:?}; the page moved to (3,0)", got));
+            }
+            Err((s, m)) => c.oracle_fail(&format!("panic@{}", s), &m, json!({"witness": "F-C10-a"})),
+        }
+    }
+    // F-C10-a, second shape: plain renumber_objects() when the page-order pass swaps two pages
+    if let Some(_r) = c.case("witness_bookmark_swap", 0) {
+        let mut d = witness_doc_1to5();
+        // page order 4, 2
+        if let Some(Object::Dictionary(p)) = d.objects.get_mut(&(3, 0)) { p.set("Kids", Object::Array(vec![rf(4), rf(2)])); }
+        d.add_bookmark(Bookmark::new("first".into(), [0.0; 3], 0, (4, 0)), None);
+        d.add_bookmark(Bookmark::new("second".into(), [0.0; 3], 0, (2, 0)), None);
+        let req = format!("renumber 1 {}", show_doc(&d));
+        match guard(|| { let mut x = d.clone(); x.renumber_objects(); x }) {
+            Ok(x) => {
+                c.corr(req, format!("ok {}", show_doc(&x)));
+                let pages: Vec<ObjectId> = x.page_iter().collect();
+                let b1 = x.bookmark_table[&1].page; let b2 = x.bookmark_table[&2].page;
+                c.witness("F-C10-a", pages == vec![(2, 0), (4, 0)] && !(b1 == (2, 0) && b2 == (4, 0)),
+                    &format!("renumber_objects() with page order [4,2]: pages now {:?}, bookmark of first page -> {:?}, of second page -> {:?}", pages, b1, b2));
+            }
+            Err((s, m)) => c.oracle_fail(&format!("panic@{}", s), &m, json!({"witness": "F-C10-a"})),
+        }
+    }
+    // F-C10-b: ids 1,2,3,4,8 with a dangling `5 0 R`: after renumber_objects() object 8 answers to `5 0 R`
+    if let Some(_r) = c.case("witness_dangling_captured", 0) {
+        let mut d = witness_doc_1to5();
+        let info = d.objects.remove(&(5, 0)).unwrap();
+        d.objects.insert((8, 0), info);
+        d.trailer.set("Info", rf(8));
+        if let Some(Object::Dictionary(cat)) = d.objects.get_mut(&(1, 0)) { cat.set("Dangling", rf(5)); }
+        d.max_id = 8;
+        let before = d.objects.get(&(5, 0)).is_none();
+        let req = format!("renumber 1 {}", show_doc(&d));
+        match guard(|| { let mut x = d.clone(); x.renumber_objects(); x }) {
+            Ok(x) => {
+                c.corr(req, format!("ok {}", show_doc(&x)));
+                let still_ref5 = matches!(x.objects.get(&(1, 0)), Some(Object::Dictionary(cat)) if matches!(cat.get(b"Dangling"), Ok(Object::Reference((5, 0)))));
+                let now = x.objects.get(&(5, 0)).is_some();
+                c.witness("F-C10-b", before && still_ref5 && now,
+                    "ids 1,2,3,4,8 + dangling `5 0 R` in the catalog: after renumber_objects() `5 0 R` resolves to the former object 8");
+            }
+            Err((s, m)) => c.oracle_fail(&format!("panic@{}", s), &m, json!({"witness": "F-C10-b"})),
+        }
+    }
+    // F-C10-c: start = 0 on an empty document; start + n beyond u32
+    if let Some(_r) = c.case("witness_domain", 0) {
+        let d = Document::with_version("1.5");
+        let req = format!("renumber 0 {}", show_doc(&d));
+        let res = guard(|| { let mut x = d.clone(); x.renumber_objects_with(0); x });
+        let rep = match &res { Ok(x) => format!("ok {}", show_doc(x)), Err((_, m)) => format!("panic {}", panic_class(m)) };
+        c.corr(req, rep);
+        let d2 = witness_doc_1to5();
+        let req2 = format!("renumber {} {}", u32::MAX - 2, show_doc(&d2));
+        let res2 = guard(|| { let mut x = d2.clone(); x.renumber_objects_with(u32::MAX - 2); x });
+        let rep2 = match &res2 { Ok(x) => format!("ok {}", show_doc(x)), Err((_, m)) => format!("panic {}", panic_class(m)) };
+        c.corr(req2, rep2);
+        let p1 = matches!(&res, Err((s, m)) if s.starts_with("src/processor.rs") && panic_class(m) == "sub");
+        let p2 = matches!(&res2, Err((s, m)) if s.starts_with("src/processor.rs") && panic_class(m) == "add");
+        c.witness("F-C10-c", p1 && p2, "renumber_objects_with(0) on an empty document: `new_id - 1` underflows; start + n > u32::MAX: `new_id += 1` overflows (overflow checks on)");
+    }
+}
